@@ -7,7 +7,8 @@ W=/tmp/devrepo${DEVN:-}; B=/tmp/devbuild${DEVN:-}
 cd $W || exit 9
 git checkout -q --detach $(git -C /repo rev-parse HEAD); git reset -q --hard HEAD
 if [ "$id" != none ]; then
-p=/verif/seeded/$id/patch.diff; [ -f $p ] || p=/verif/seeded/$id/patch.orig.diff
+p=/verif/seeded/$id/patch.diff; [ -f $p ] || p=/verif/seeded/$id/patch.orig.diff; [ -f $p ] || p=/verif/seeded/$id.diff
+id=$(echo $id | tr / _)
 if ! git apply -3 $p 2>/tmp/apply_$id.err; then echo "PATCH DOES NOT APPLY: $id"; cat /tmp/apply_$id.err; git reset -q --hard HEAD; exit 8; fi
 fi
 cd /verif; VERIF_REPO=$W VERIF_BUILD=$B ./check $prop --tier quick --no-evidence "$@" > /tmp/dev_${id}_$prop.log 2>&1; rc=$?
